@@ -53,7 +53,12 @@ def build_binary(log):
     return os.path.join(tdir, "debug", "egglog")
 
 
-def run_program(binary, text, workdir, tag, extra_args=()):
+PAR_ENV = {"EGGLOG_PARALLEL_DB_LEVEL_OP_CUTOFF": "0", "EGGLOG_PARALLEL_INDEX_CONSTRUCTION_CUTOFF": "0",
+           "EGGLOG_PARALLEL_REBUILD_CUTOFF": "0", "EGGLOG_PARALLEL_TABLE_OP_CUTOFF": "0",
+           "EGGLOG_PARALLEL_INTRA_CONTAINER_CUTOFF": "0", "EGGLOG_PARALLEL_INTER_CONTAINER_CUTOFF": "0"}
+
+
+def run_program(binary, text, workdir, tag, extra_args=(), extra_env=None):
     os.makedirs(workdir, exist_ok=True)
     src = os.path.join(workdir, tag + ".egg")
     dump = os.path.join(workdir, tag + ".dump.jsonl")
@@ -64,6 +69,7 @@ def run_program(binary, text, workdir, tag, extra_args=()):
     env = dict(os.environ)
     env["EGGLOG_VERIF_DUMP"] = dump
     env["RUST_LOG"] = "error"
+    env.update(extra_env or {})
     p = subprocess.run([binary] + list(extra_args) + [src], env=env, capture_output=True, text=True, timeout=600)
     events = []
     if os.path.exists(dump):
@@ -254,6 +260,10 @@ def insert_row(db, tid_of, name, key, val, ts):
             insert_row(db, tid_of, x[0], tuple(x[1]), None, ts)
     rows = db.setdefault(tid_of[name], {})
     if key in rows:
+        if gen.kind_of(name) == "fn" and val is not None and val < rows[key][0]:
+            # :merge (min old new): a smaller value replaces the stored one and re-stamps the row
+            rows[key] = (val, ts, rows[key][2])
+            return True
         return False
     if gen.kind_of(name) == "ctor":
         val = (name, tuple(key))
@@ -629,7 +639,15 @@ def small_rows(atoms, rnd, max_rows=R):
                 break
             key = tuple(rand_val(t) for t in at)
             db[name].setdefault(key, rnd.randrange(D))
-    return {name: sorted(rows.items(), key=repr) for name, rows in db.items()}
+    out = {name: sorted(rows.items(), key=repr) for name, rows in db.items()}
+    # merge functions: some keys are written twice with different values (the stored value must be the min, whatever
+    # the order, the batching and the iteration in which the two writes arrive)
+    for name in out:
+        if gen.kind_of(name) == "fn":
+            for key, val in list(out[name]):
+                if rnd.random() < 0.4:
+                    out[name].append((key, rnd.randrange(D)))
+    return out
 
 
 def all_terms(x, acc):
@@ -657,10 +675,18 @@ def split_steps(sdb, rnd, schedule, with_subsume=False, subsume_ctors=True, with
         timeline.append((k, how, kind, name, tuple(key), val))
 
     later = []
+    placed_at = {}
     for name, rows in sorted(sdb.items()):
         for key, val in rows:
             k = rnd.randrange(n)
             how = "aux" if (k < n - 1 and rnd.random() < 0.4) else "pre"
+            if (name, tuple(key)) in placed_at and rnd.random() < 0.6:
+                # a second write to the same key of a merge function: often by the same rule in the same iteration
+                # (one flush), which is where in-batch merging happens
+                k, how = placed_at[(name, tuple(key))]
+                if k < n - 1:
+                    how = "aux"
+            placed_at[(name, tuple(key))] = (k, how)
             emit(k, how, "ins", name, key, val)
             if with_subsume and (gen.kind_of(name) == "rel" or (gen.kind_of(name) == "ctor" and subsume_ctors)) and rnd.random() < 0.45:
                 # subsume strictly later in program order: a later step, or later in the same (step, how) list
@@ -1055,17 +1081,19 @@ def work_item(args):
             ident = {nm: nm for nm in atoms.types}
             pdb = profile_db(atoms, profile, seed, ident)
             for rs, (outrel, ropts) in sorted(rules.items()):
-                last = max([k_ for k_, r_ in enumerate(schedule) if r_ == rs], default=None)
-                if last is None:
-                    continue
-                fdb = merged(pdb, db_at_step(placed, last, None, ident, 0))
-                ef = eval_body(atoms, ident, fdb, small_only=False, head=head)
+                ef = set()
+                for k_ in [k_ for k_, r_ in enumerate(schedule) if r_ == rs]:
+                    # union over the runs: with merge functions a match of an earlier run may no longer hold later
+                    ef |= eval_body(atoms, ident, merged(pdb, db_at_step(placed, k_, None, ident, 0)), small_only=False, head=head)
+                    if len(ef) > 30000:
+                        break
                 if len(ef) <= 30000:
                     exp_full[outrel] = ef
             if companion:
-                last = max([k_ for k_, r_ in enumerate(schedule) if r_ == companion[2]], default=None)
-                fdb = merged(pdb, db_at_step(placed, last, None, ident, 0))
-                ef = eval_body(companion[0], ident, fdb, small_only=False, head=companion[1])
+                ef = set()
+                for k_ in [k_ for k_, r_ in enumerate(schedule) if r_ == companion[2]]:
+                    ef |= eval_body(companion[0], ident, merged(pdb, db_at_step(placed, k_, None, ident, 0)), small_only=False,
+                                    head=companion[1])
                 if len(ef) <= 30000:
                     exp_full["OutC"] = ef
             tail = (tail or []) + ["(print-function %s 40000)" % o for o in sorted(exp_full)]
@@ -1105,6 +1133,18 @@ def work_item(args):
             return res
         ev_to_step = {e: k for k, e in enumerate(sev)}
         real_all, exp_all = {}, {}
+        cn_final = None
+        if res["unions"]:
+            fdb = {}
+            fun = []
+            for (k_, how_, kind_, name_, key_, val_) in placed:
+                if kind_ == "union":
+                    for t_ in key_:
+                        insert_row(fdb, V.tid_of, t_[0], tuple(t_[1]), None, 0)
+                    fun.append(key_)
+                elif kind_ == "ins":
+                    insert_row(fdb, V.tid_of, name_, key_, val_, 0)
+            cn_final = Canon(fdb, fun, V.tid_of)
         for rs, (outrel, ropts) in sorted(rules.items()):
             V.out_tid = V.tid_of[outrel]
             recs = main_rule_records(events, V.out_tid)
@@ -1189,20 +1229,10 @@ def work_item(args):
                 elif cq != "unsat":
                     res["errors"].append("%s: plan %s: the semantic queries are unsat but the timestamp cover query is %s (%s)"
                                          % (tag, key, cq, cw))
-            if res["unions"]:
+            if cn_final is not None:
                 # compare modulo the equalities that hold at the end (Out rows are themselves re-canonicalised)
-                fdb = {}
-                fun = []
-                for (k_, how_, kind_, name_, key_, val_) in placed:
-                    if kind_ == "union":
-                        for t_ in key_:
-                            insert_row(fdb, V.tid_of, t_[0], tuple(t_[1]), None, 0)
-                        fun.append(key_)
-                    elif kind_ == "ins":
-                        insert_row(fdb, V.tid_of, name_, key_, val_, 0)
-                cn = Canon(fdb, fun, V.tid_of)
-                real = {tuple(cn.val(x) for x in t) for t in real}
-                exp = {tuple(cn.val(x) for x in t) for t in exp}
+                real = {tuple(cn_final.val(x) for x in t) for t in real}
+                exp = {tuple(cn_final.val(x) for x in t) for t in exp}
             real_all[outrel], exp_all[outrel] = real, exp
             res["sanity"].append({"tag": tag, "ruleset": rs, "real_out": len(real), "expected": len(exp), "agree": real == exp})
         if prop == "C13":
@@ -1252,6 +1282,25 @@ def work_item(args):
                         res["errors"].append("%s: solver returned %s on the check plan" % (tag, v))
             res["solver_s"] += VC.solver_s
             res["queries"] += VC.queries
+        # the same program once more with 4 threads and every parallelism cut-off at 0, so that the parallel code paths
+        # (staged outputs, parallel rebuild / index construction) run on these small inputs: same printed tables required
+        if prop in ("C02", "C03") and profile[0] in ("p3", "hot", "p60") and os.environ.get("VERIF_E2_PARALLEL", "1") != "0":
+            rc4, out4, err4, _ = run_program(binary, text, workdir, tag + "_j4", extra_args=("-j", "4"), extra_env=PAR_ENV)
+            if rc4 != 0:
+                real_all["exit status with -j 4"] = {(rc4,)}
+                exp_all["exit status with -j 4"] = {(0,)}
+            else:
+                for rs_, (outrel_, _o) in sorted(rules.items()):
+                    r4 = {t for t in parse_out(out4, outrel_) if all_small(t)}
+                    r1 = {t for t in parse_out(out, outrel_) if all_small(t)}
+                    if cn_final is not None:
+                        # printed class representatives may differ between runs: compare modulo the final closure
+                        r4 = {tuple(cn_final.val(x) for x in t) for t in r4}
+                        r1 = {tuple(cn_final.val(x) for x in t) for t in r1}
+                    res["sanity"].append({"tag": tag, "threads4": outrel_, "agree": r4 == r1})
+                    if r4 != r1:
+                        real_all[outrel_ + " with -j 4"] = r4
+                        exp_all[outrel_ + " with -j 4"] = r1
         for outrel, ef in sorted(exp_full.items()):
             rf = parse_out(out, outrel, raw=True)
             res["sanity"].append({"tag": tag, "full_range": outrel, "real_out": len(rf), "expected": len(ef), "agree": rf == ef})
